@@ -195,6 +195,19 @@ def step (line : String) : String :=
         | "class" => .cls | "argparse" => .argparse | _ => .func inl
       if Kinds.dom k ir then (Json.mkObj [("ok", irToJson (Kinds.norm k ir))]).compress
       else "{\"unmodelled\":\"outside the regular domain of this kind\"}"
+    | .ok "norm_chain" =>
+      let ir := match j.getObjVal? "ir" with | .ok i => irOfJson i | _ => {}
+      let ks : List Kinds.Kind := match j.getObjVal? "kinds" with
+        | .ok (Json.arr a) => a.toList.map fun kj =>
+          let inl := (kj.getObjValAs? Bool "inline").toOption.getD false
+          match (kj.getObjValAs? String "kind").toOption.getD "" with
+          | "class" => .cls | "argparse" => .argparse
+          | "rest" => .doc .rest | "numpydoc" => .doc .numpydoc | "google" => .doc .google
+          | _ => .func inl
+        | _ => []
+      (match Kinds.chain ks ir with
+       | some out => (Json.mkObj [("ok", irToJson out)]).compress
+       | none => "{\"unmodelled\":\"a description on the chain leaves the regular domain of the next kind\"}")
     | .ok "conform" =>
       let b (k : String) := (j.getObjValAs? Bool k).toOption.getD false
       let o : Conform.Obs := { fileExists := b "exists", found := b "found", cmpEq := b "cmp_eq",
